@@ -2,5 +2,6 @@ SPECIFICATION ExplainSpec
 CONSTANTS
   Deviations = {}
   Family = "req"
+  PathDepth = 2
 INVARIANTS EmitExplain
 CHECK_DEADLOCK FALSE
